@@ -62,12 +62,12 @@ theorem cutLoop_fixed (s T : Bytes) (n0 : Nat) (hs : Spec.inflate s = some (T, n
   have hy : bits2.bytes = s := by rw [y2, y1]
   have hc2 : (⟨bits2, m, 0, 0, 0, Huffman.zero, Huffman.zero⟩ : Cutter).OK :=
     ⟨i2, by show m ≤ bits2.bytes.size; rw [hy]; exact hm, Huffman.zero_shape, Huffman.zero_shape⟩
-  have hsim := doStaticHuffman_sim ⟨bits2, m, 0, 0, 0, Huffman.zero, Huffman.zero⟩ hc2 (8 * s.size + 1) pE T
+  have hsim := doStaticHuffman_sim ⟨bits2, m, 0, 0, 0, Huffman.zero, Huffman.zero⟩ hc2 (8 * s.size + 1) pE #[] T
     (by show huffBlock fixedLit fixedDist 7 5 bits2.bytes none 0 (8 * s.size + 1) bits2.pos #[] = .next pE T
         rw [hy, p2]; exact hspec) rfl hT true
   generalize Cutter.doStaticHuffman ⟨bits2, m, 0, 0, 0, Huffman.zero, Huffman.zero⟩ true = blk at h hsim
   obtain ⟨c3, err⟩ := blk
-  obtain ⟨k1, k2, k3, k4, k5⟩ := hsim
+  obtain ⟨k1, k2, k3, k4, k5, _⟩ := hsim
   have hk1 : c3.bits.bytes.size = s.size := by
     have : c3.bits.bytes.size = bits2.bytes.size := k1
     rw [this, hy]
